@@ -313,8 +313,9 @@ def _register(api, obj, name, module=MOD, **lists):
 
 
 # ---- cases -----------------------------------------------------------------------------
-# Only unarguably invalid names (no empty strings, which an API could read as "not given").
-WHYS = ['name_space', 'name_digit', 'name_dots', 'name_slash', 'name_dash', 'module_space',
+# Invalid names; the empty string is one (it is not an identifier; Gin's own test suite expects
+# it to be rejected, and `None`, not '', is how every API spells "not given").
+WHYS = ['name_empty', 'name_space', 'name_digit', 'name_dots', 'name_slash', 'name_dash', 'module_space',
         'module_dots', 'duplicate', 'allow_unknown', 'deny_unknown', 'both_lists',
         'module_newline', 'name_newline']
 REJECT_TARGETS = ['def_defaults', 'builtin_sum', 'callable_obj', 'callable_eq', 'bound_method',
@@ -474,7 +475,7 @@ def _check_reject(case, fails):
   neighbour = _register('external', lambda q=0: ['n', q], 'neighbour')
   _register(api, other, 'taken')
   name, module, lists = 'fresh', MOD, {}
-  bad = {'space': 'has space', 'digit': '9lives', 'dots': 'a..b', 'slash': 'x/y', 'dash': 'a-b',
+  bad = {'empty': '', 'space': 'has space', 'digit': '9lives', 'dots': 'a..b', 'slash': 'x/y', 'dash': 'a-b',
          'newline': 'trailing\n'}
   if why.startswith('name_'):
     name = bad[why[5:]]
